@@ -272,11 +272,16 @@ func (p *Peer) Serialize() ([]byte, error) {
 	buf := make([]byte, 5)
 	buf[0] = p.Type
 	copy(buf[1:], p.BgpId.AsSlice())
+	// The entry carries exactly the number of address octets its type
+	// announces; an invalid (zero) address, as used for locally originated
+	// routes, is written as all zeroes instead of no octets at all.
+	addrLen := 4
 	if p.Type&1 > 0 {
-		buf = append(buf, p.IpAddress.AsSlice()...)
-	} else {
-		buf = append(buf, p.IpAddress.AsSlice()...)
+		addrLen = 16
 	}
+	addr := make([]byte, addrLen)
+	copy(addr, p.IpAddress.AsSlice())
+	buf = append(buf, addr...)
 	if p.Type&(1<<1) > 0 {
 		bbuf, err = packValues(p.AS)
 	} else {
